@@ -58,8 +58,8 @@ PROPS["C20"] = {
 }
 PROPS["C01"] = adm_prop("c01", 1500, 40000, "C01_verdict: for every configuration, request, oracle world and every evaluator that allows at privileged (true of any registry: C03_privileged), a non-exempt pod CREATE or significant UPDATE is allowed iff the evaluator allows the pod at the enforce level:version the labels and defaults resolve to (spec-side resolution); denials are 403 Forbidden naming level:version; the enforce-policy annotation names the level (and below privileged the version). C01_verdict_needs_hyp documents why the evaluator hypothesis is needed (fully-privileged short circuit).")
 PROPS["C06"] = adm_prop("c06", 1500, 40000, "C06_exact: an exemption test is true iff the value is non-empty and Leibniz-equal to a list entry; C06_exemptions (P06): an exempt marking names a matching dimension, is allowed, unevaluated and counted once; whenever the request would have been evaluated without exemptions it is marked; when no dimension matches exactly the response equals the one with all exemption lists emptied; C06_dryrun: dry runs evaluate exactly the non-exempt-runtime-class pods. The implementation is run twice per case (with and without exemptions) on hits and near-misses (prefix, case change, cross-list, empty).")
-PROPS["C07"] = adm_prop("c07", 1500, 40000, "C07_faults (P07) for every oracle answer: pod requests fail closed at every call site (500 on lookup failure, 400 on decode/wrong type/nil for object and old object) and are allowed only if ignored, exempt, fully privileged with valid labels, insignificant, or evaluated and compliant; controller requests fail open with an error annotation and one fatal error metric; namespace decode failures deny, list failure and expiry never block; malformed labels never skip evaluation and are flagged. F4 (nil object panics the controller path) was found by this check and repaired (fix: commit). Stream c07src drives the real client- and informer-backed NamespaceGetter/PodLister (admission/namespace.go, admission/pods.go) over a stub API server with failing GET/LIST requests and lists of more than 500 pods; Model/Sources.v computes the oracle answers from the cluster state.",
-    extra_streams=[{"name": "c07src", "n_quick": 400, "n_thorough": 8000}])
+PROPS["C07"] = adm_prop("c07", 1500, 40000, "C07_faults (P07) for every oracle answer: pod requests fail closed at every call site (500 on lookup failure, 400 on decode/wrong type/nil for object and old object) and are allowed only if ignored, exempt, fully privileged with valid labels, insignificant, or evaluated and compliant; controller requests fail open with an error annotation and one fatal error metric; namespace decode failures deny, list failure and expiry never block; malformed labels never skip evaluation and are flagged. F4 (nil object panics the controller path) was found by this check and repaired (fix: commit). Stream c07src drives the real client- and informer-backed NamespaceGetter/PodLister (admission/namespace.go, admission/pods.go) over a stub API server with failing GET/LIST requests and lists of more than 500 pods; Model/Sources.v computes the oracle answers from the cluster state. Stream c07hist: 40-request histories through one long-lived Admission (all fault classes), each answer compared with a fresh instance's: fault handling must not depend on what was served before.",
+    extra_streams=[{"name": "c07src", "n_quick": 400, "n_thorough": 8000}, {"name": "c07hist", "n_quick": 400, "n_thorough": 8000}])
 PROPS["C08"] = adm_prop("c08", 1500, 40000, "C08_audit_warn (P08) for an arbitrary evaluator: the allow bit is the enforce verdict alone; an allowed request carries the warn warning iff the object violates warn; audit-violations is present iff it violates audit, allowed or denied; each names its own level:version; cache soundness (every cached lookup equals the evaluator on that key) for all coinciding and partially coinciding triples.")
 PROPS["C09"] = adm_prop("c09", 1200, 30000, "C09_never_denied for all faults; C09_controllers (P09): enforce is never applied (no enforce metric, no enforce-policy annotation), no findings without template or on subresources, and warnings/audit-violations equal those of the bare pod of the same template under the same audit/warn policy. All nine Go types are exercised (CronJob nesting, optional ReplicationController template, Pod under a controller resource).")
 PROPS["C10"] = adm_prop("c10", 1500, 40000, "C10_significance_characterised, C10_insignificant_allowed (allowed, unevaluated, whatever the policy), C10_updates_and_subresources (P10): significant updates answer like the CREATE, any subresource outside the 8 ignored names answers like no subresource; the 8 ignored ones are allowed with an empty trace.")
@@ -98,7 +98,7 @@ PROPS["C16"] = {
     "assumptions": [],
 }
 PROPS["C18"] = {
-    "streams": [{"name": "c18", "n_quick": 400, "n_thorough": 10000, "race": True}, {"name": "c18adm", "n_quick": 1200, "n_thorough": 30000}, {"name": "c18e2e", "n_quick": 240, "n_thorough": 4000}],
+    "streams": [{"name": "c18", "n_quick": 400, "n_thorough": 10000, "race": True}, {"name": "c18adm", "n_quick": 1200, "n_thorough": 30000}, {"name": "c18e2e", "n_quick": 240, "n_thorough": 4000}, {"name": "c18hist", "n_quick": 400, "n_thorough": 8000}],
     "level_text": "Admission half (C18_admission_metrics'): for every request and oracle world, an evaluated pod request records exactly one enforce evaluation whose decision matches the response, an exempted request exactly one exemption and nothing else, a request failing at a call site one fatal error, ignored requests nothing, audit/warn denials iff reported. Recorder half: C18_get_exact / C18_counts (each series equals its number of recordings since the last reset), C18_exact_any_order (any permutation/interleaving of recordings gives the same counters), C18_reset, C18_bucket + C18_bucket_cardinality + C18_request_labels (policy_version is 'latest', 'future' or v1.k with k <= server minor: at most minor+3 values whatever labels users write). Real PrometheusRecorder in a fresh registry: record/reset histories gathered and compared; 16 goroutines x 4000 recordings with exact totals; adversarial versions up to v1.(2^40).",
     "level_note": "Trusted: Coq kernel; Model/Metrics.v (the CachedInc fast path and the slow path are one increment in the model; the correspondence covers cached and uncached label tuples); prometheus counter internals and the RWMutex are runtime. No axioms.",
     "partial": "atomicity of prometheus counters and of the RWMutex-guarded cache is runtime: observed under -race and by exact totals",
